@@ -1030,6 +1030,9 @@ class TermAnalysis(Analysis):
         rec = self._record(base)
         if rec is not None and name in rec:
             return rec[name]
+        if base[0] == "ite" and (self._record(base[2]) is not None or self._record(base[3]) is not None):
+            # (R(..) if c else None).field is R(..).field under c: the projection goes through the gate of an Optional record
+            return ("ite", base[1], self._attr(base[2], name), self._attr(base[3], name))
         if rec is not None and self.inline_depth < 4:
             # a property of a record class: its getter applied to the record
             cq = base[1][1] if base[1][0] == "func" else base[1][1][1]
